@@ -177,6 +177,10 @@ namespace Pistache::Http::Mime
         if (sub == Subtype::Ext || sub == Subtype::Vendor)
         {
             (void)match_until({ ';', '+' }, cursor);
+            // "text/;a=b", "text/+json": no subtype at all (rawSub() would have to splice
+            // an empty range, which it asserts against)
+            if (sub == Subtype::Ext && subToken.size() == 0)
+                raise("Malformed Media type, missing subtype");
             rawSubIndex.beg = subToken.start();
             rawSubIndex.end = subToken.end() - 1;
         }
@@ -212,6 +216,8 @@ namespace Pistache::Http::Mime
             if (suffix == Suffix::Ext)
             {
                 (void)match_until({ ';', '+' }, cursor);
+                if (suffixToken.size() == 0)
+                    raise("Malformed Media Type, missing suffix");
                 rawSuffixIndex.beg = suffixToken.start();
                 rawSuffixIndex.end = suffixToken.end() - 1;
             }
